@@ -11,6 +11,8 @@ import (
 	"github.com/LiskHQ/lisk-engine/pkg/log"
 	"github.com/LiskHQ/lisk-engine/pkg/p2p"
 	"github.com/LiskHQ/lisk-engine/pkg/txpool"
+
+	"verif/nolog"
 )
 
 // ---- tx pool fixture -------------------------------------------------------------------------
@@ -47,10 +49,7 @@ func (Verifier) VerifyTransaction(req *labi.VerifyTransactionRequest) (*labi.Ver
 
 var poolLogger log.Logger
 
-func init() {
-	l, _ := log.NewSilentLogger()
-	poolLogger = l
-}
+func init() { poolLogger = nolog.L{} }
 
 type PoolCfg struct {
 	Max, PerSender int
